@@ -424,11 +424,38 @@ def varint_reader_consts(ctx: Ctx) -> dict[str, Any]:
             if c:
                 out["mask"] = c[0].value
                 out["shift_var"] = norm(n.right)
-        if isinstance(n, ast.Compare) and isinstance(n.left, ast.BinOp) and isinstance(n.left.op, ast.BitAnd) and isinstance(n.comparators[0], ast.Constant) and n.comparators[0].value == 0:
-            c = [x for x in (n.left.left, n.left.right) if isinstance(x, ast.Constant)]
-            if c:
+    # the continuation test: a condition on (byte & C); its polarity is decided on the CFG (any spelling)
+    g = cfg_of(ctx, fn)
+
+    def cl_cont(nd: Node):
+        t = nd.ast
+        pol = True
+        if isinstance(t, ast.Compare) and len(t.ops) == 1 and isinstance(t.comparators[0], ast.Constant) and t.comparators[0].value == 0 and isinstance(t.ops[0], (ast.Eq, ast.NotEq)):
+            pol = isinstance(t.ops[0], ast.NotEq)
+            t = t.left
+        if isinstance(t, ast.BinOp) and isinstance(t.op, ast.BitAnd):
+            c = [x for x in (t.left, t.right) if isinstance(x, ast.Constant)]
+            if c and c[0].value != out.get("mask"):
                 out["cont"] = c[0].value
-                out["cont_op"] = type(n.ops[0]).__name__
+                return ("more", pol)
+        return None
+
+    for nd in g.reachable():
+        if nd.kind == "cond":
+            cl_cont(nd)
+    if "cont" in out:
+        rets = [nd for nd in g.reachable() if isinstance(nd.ast, ast.Return) and isinstance(nd.ast.value, ast.Name)]
+        adv = [nd for nd in g.reachable() if nd.kind == "stmt" and isinstance(nd.ast, ast.AugAssign) and isinstance(nd.ast.op, ast.Add) and norm(nd.ast.target) == out.get("shift_var")]
+        conds = [nd for nd in g.reachable() if nd.kind == "cond" and cl_cont(nd)]
+        if conds:
+            from ..guard import truth_table
+
+            tr = truth_table(g, ["more"], cl_cont, rets, start=conds[0])
+            ta = truth_table(g, ["more"], cl_cont, adv, start=conds[0])
+            out["cont_op"] = "Eq" if (tr[(False,)] == (True, True) and not tr[(True,)][0] and ta[(True,)] == (True, True) and not ta[(False,)][0]) else "wrong-polarity"
+    for n in own_nodes(fn.node):
+        if False:
+            pass
     for n in own_nodes(fn.node):
         if isinstance(n, ast.AugAssign) and isinstance(n.op, ast.Add) and norm(n.target) == out.get("shift_var") and isinstance(n.value, ast.Constant):
             out["shift"] = n.value.value
